@@ -433,8 +433,9 @@ def translator_tie(specs):
                 tpath = os.path.join(gen_dir, "tie_%s_%s.v" % (sp["gen"], fn))
                 open(tpath, "w").write(
                     "From Coq Require Import ZArith List.\nFrom EG Require Import Num.Num Lib.Vec Model.Types %s Gen.%s.\n"
-                    "Lemma tie : %s.\nProof. intros; reflexivity. Qed.\n" % (sp["model"], sp["gen"],
-                        stmt.replace("{G}", "EG.Gen.%s" % sp["gen"]).replace("{M}", "EG.%s" % sp["model"])))
+                    "Lemma tie : %s.\nProof. %s Qed.\n" % (sp["model"], sp["gen"],
+                        stmt.replace("{G}", "EG.Gen.%s" % sp["gen"]).replace("{M}", "EG.%s" % sp["model"]),
+                        sp.get("proofs", {}).get(fn, "intros; reflexivity.").replace("{G}", "EG.Gen.%s" % sp["gen"]).replace("{M}", "EG.%s" % sp["model"])))
                 p = subprocess.Popen(["timeout", "120", "coqc", "-noglob", "-Q", COQ, "EG", tpath], cwd=COQ,
                                      stdout=subprocess.PIPE, stderr=subprocess.PIPE, text=True)
                 procs.append((fn, p))
